@@ -148,10 +148,11 @@ class Model:
             self._index_module(m)
         self.renamed_functions: List[str] = []
         if canonical_locals:
-            from .reflocals import canonicalise, unflip
+            from .reflocals import canonicalise, unflip, uninvert
 
             for q, f in self.funcs.items():
                 if f.parent is None and not isinstance(f.node, ast.Lambda):
+                    uninvert(q, f.node)
                     if canonicalise(q, f.node):
                         self.renamed_functions.append(q)
                     unflip(q, f.node)
